@@ -304,7 +304,7 @@ int main() {
     fflush(stdout);
     pid_t pid = fork();
     if (pid == 0) {
-      alarm(300);
+      alarm(line.compare(0, 3, "SF ") == 0 ? 900 : 15);   // a hang (e.g. a merge loop that never terminates) is an observation
       std::string r = Handle(line);
       r += '\n';
       size_t done = 0;
